@@ -128,6 +128,7 @@ type ContractFile struct {
 	Lemmas    []*Lemma
 	Globals   []*GhostGlobal
 	Dropped   []string
+	Opaque    []string
 	Contracts []*Contract
 	Text      string // concatenated //@ text (for field name scan and hashing)
 	SortSpecs map[string]string
@@ -135,7 +136,7 @@ type ContractFile struct {
 
 var clauseKeywords = map[string]bool{
 	"import": true, "const": true, "spec": true, "axiom": true, "lemma": true, "induction": true, "uses": true,
-	"ghost": true, "dropped": true, "func": true, "extern": true, "interface": true, "params": true,
+	"ghost": true, "dropped": true, "opaque": true, "func": true, "extern": true, "interface": true, "params": true,
 	"results": true, "requires": true, "profile": true, "ensures": true, "modifies": true,
 	"trusted": true, "loop": true, "invariant": true, "at": true, "pure": true, "noalloc": true,
 	"profiles": true, "free": true, "sameas": true, "sortspec": true, "inline": true, "lemmas": true,
@@ -277,6 +278,8 @@ func readContractFile(path string, pkgPath string) (*ContractFile, error) {
 			cf.Consts[strings.TrimSpace(rc.text[:k])] = strings.TrimSpace(rc.text[k+1:])
 		case "dropped":
 			cf.Dropped = append(cf.Dropped, strings.Fields(rc.text)...)
+		case "opaque":
+			cf.Opaque = append(cf.Opaque, strings.Fields(rc.text)...)
 		case "sortspec":
 			// sortspec TypeName: key expression over element "e" (ascending, strict weak order by key)
 			k := strings.Index(rc.text, ":")
